@@ -520,12 +520,34 @@ def _skipwords (ctx, repo):
     is_log = lambda e: isinstance(e, ast.Call) and call_name(e) in ('msg', 'err', 'warn')
     ccalls = [(q.enclosing_stmt_node(g, c_), c_) for c_ in calls_in(f.node) if call_name(c_) == 'checksum' and len(c_.args) == 3 and isinstance(c_.func, ast.Name)]
     for ver, pname in ((4, 'ipv4'), (6, 'ipv6')):
+      iprec = q.Rec(srcip=q.Rec(raw=b'\x01' * 16), dstip=q.Rec(raw=b'\x02' * 16), protocol=6, next_header_type=6)
       ex = {'self.prev.__class__.__name__': pname, 'self.prev.srcip.raw': b'\x01' * 16, 'self.prev.dstip.raw': b'\x02' * 16, 'self.prev.protocol': 6, 'self.prev.next_header_type': 6,
-            'self.raw': b'\x00' * 20, 'unparsed': True, 'payload': None}
+            'self.prev': iprec, 'self.raw': b'\x00' * 20, 'unparsed': True, 'payload': None}
+      class XHook(object):
+        # a pseudo-header helper of another module of the packet library (reached through its star import): evaluated on the sample header
+        wants_env = True
+        def __init__ (self): self.depth = 0
+        def __call__ (self, call, env):
+          if not isinstance(call.func, ast.Name) or call.keywords or self.depth > 2: return (False, None)
+          r_ = mod.lookup(call.func.id)
+          if not (hasattr(r_, 'node') and isinstance(getattr(r_, 'node', None), ast.FunctionDef)) or r_.module is mod or call.func.id == 'checksum': return (False, None)
+          try: args = [q.eval_env2(repo, mod, a_, env, cls) for a_ in call.args]
+          except Exception: return (False, None)
+          if len(args) != len(r_.params): return (False, None)
+          gh_ = q.cfg_of(r_); inner = q.Env(dict(zip(r_.params, args)), list(env.matchers), self)
+          vals = set()
+          self.depth += 1
+          try:
+            for p_, e_ in q.paths_under(repo, r_.module, gh_, inner, gh_.entry, [n_ for n_ in gh_.nodes if n_.kind == 'return'], None, limit=20):
+              try: vals.add(q.eval_env2(repo, r_.module, p_[-1].ast.value, e_, None))
+              except Exception: vals.add('?')
+          finally: self.depth -= 1
+          if len(vals) == 1 and '?' not in vals: return (True, list(vals)[0])
+          return (False, None)
       found = []
       for cn_, c_ in ccalls:
         if cn_ is None or not isinstance(c_.args[0], ast.BinOp): continue
-        env = q.Env(dict(ex), [(is_u, 0x0a000001), (is_log, None)])
+        env = q.Env(dict(ex), [(is_u, 0x0a000001), (is_log, None)], XHook())
         ks = q.values_at(repo, mod, g, env, cn_, c_.args[2], cls, limit=80); ps = q.values_at(repo, mod, g, env, cn_, c_.args[0].left, cls, limit=80)
         if not ks and not ps: continue            # this call is not reached for this IP version
         if len(ks) == 1 and len(ps) == 1 and isinstance(list(ks)[0], int) and isinstance(list(ps)[0], bytes): found.append((c_, list(ks)[0], len(list(ps)[0])))
